@@ -459,20 +459,25 @@ def subclasses_of(b, name):
     return [c for c in b.base_of if c != name and xb.is_sub(b, c, name)]
 
 
-def polymorphise(rng, b, ty, v, p=0.5):
-    """replace instances by instances of registered subclasses (extra members filled conformantly)"""
+def polymorphise(rng, b, ty, v, p=0.5, bare_p=0.4):
+    """replace instances by instances of registered subclasses (extra members filled conformantly, or — `bare_p` —
+    all left unset when they are optional: then nothing but the xsi:type value mentions the subclass's namespace)"""
     if v is None or not isinstance(v, dict):
         return v
     if 'l' in v:
         et = ty if (xb.repeated(ty['o']) and ty['k'] != 'arr') else ty.get('elem', ty)
-        return {'l': [polymorphise(rng, b, et, i, p) for i in v['l']]}
+        return {'l': [polymorphise(rng, b, et, i, p, bare_p) for i in v['l']]}
     if 'o' in v and ty['k'] == 'obj':
         cls, fs = v['o']
-        out = [[k, polymorphise(rng, b, t, fv, p)] for (k, t), (_, fv) in zip(ty['fields'], fs)]
+        out = [[k, polymorphise(rng, b, t, fv, p, bare_p)] for (k, t), (_, fv) in zip(ty['fields'], fs)]
         subs = subclasses_of(b, cls)
         if subs and rng.random() < p:
             d = rng.choice(sorted(subs))
             extra = b.fields_of[d][len(ty['fields']):]
+            if rng.random() < bare_p and all(t['o']['min'] == 0 for _, t in extra):
+                if rng.random() < 0.5:      # only inherited members set / nothing set at all
+                    out = [[k, fv if t['o']['min'] > 0 else None] for (k, t), (_, fv) in zip(ty['fields'], out)]
+                return {'o': [d, out + [[k, None] for k, _ in extra]]}
             more = [[k, xb.gen_field(rng, t)] for k, t in extra]
             if all(xb.py_conforms(t, x) or x is None for (k, t), (_, x) in zip(extra, more)):
                 return {'o': [d, out + more]}
@@ -590,7 +595,7 @@ def leaf_literals(rng, p):
     return LEX_VARIANTS[t]
 
 
-def boundary_docs(b, root_ty, root, cap=16):
+def boundary_docs(b, root_ty, root, cap=24):
     """directed (not sampled) neighbours of every declared bound: for each integer leaf with ge/gt/le/lt the literals
     bound-1, bound, bound+1; for each string leaf with min_len/max_len the lengths around them"""
     out = []
@@ -909,6 +914,62 @@ def facet_universes():
     return out
 
 
+def directed_universes():
+    """fixed universes aimed at places random generation rarely reaches:
+    (1) bounds that coincide with the limits of the fixed-width base type, required members behind nillable ones;
+    (2) a subclass chain across three namespaces whose own members are all optional (polymorphic documents in which
+        nothing but an xsi:type value mentions the subclass's namespace), also as array items"""
+    o = xb.default_occ()
+    req = {'nillable': False, 'min': 1, 'max': 1}
+    nreq = {'nillable': True, 'min': 1, 'max': 1}
+
+    def ip(kind, occ=req, **kw):
+        return {'k': 'prim', 'p': _prim('int', kind=kind, **kw), 'o': occ}
+    u1 = {'tns': 'urn:d1', 'idx': 7001, 'classes': [
+        {'name': 'Lim', 'ns': 'urn:d1', 'base': None, 'depth': 0, 'own': [
+            ['a', ip('u32', gt='0')], ['b', ip('i16', lt='32767')], ['c', ip('i8', ge='-128')], ['d', ip('u8', le='255')],
+            ['e', ip('i64', gt=str(-2 ** 63))], ['f', ip('u64', lt=str(2 ** 64 - 1))], ['g', ip('u16', ge='0', le='65535')]]},
+        {'name': 'Req', 'ns': 'urn:d1', 'base': None, 'depth': 0, 'own': [['r', ip('unbounded')]]}],
+        'methods': [
+            {'name': 'm0', 'args': [['a0', {'k': 'ref', 'cls': 'Lim', 'o': req}]], 'rets': []},
+            {'name': 'm1', 'args': [['a1', {'k': 'ref', 'cls': 'Req', 'o': nreq}],
+                                    ['a2', {'k': 'prim', 'p': _prim('str', min=2), 'o': nreq}],
+                                    ['a3', {'k': 'ref', 'cls': 'Req', 'o': req}],
+                                    ['a4', ip('i32', occ=nreq)], ['a5', ip('i32', occ=req)]], 'rets': []}]}
+    oi = {'k': 'prim', 'p': _prim('int'), 'o': o}
+    os_ = {'k': 'prim', 'p': _prim('str'), 'o': o}
+    rb = {'k': 'ref', 'cls': 'PB', 'o': o}
+    u2 = {'tns': 'urn:d2', 'idx': 7002, 'classes': [
+        {'name': 'PB', 'ns': 'urn:d2a', 'base': None, 'depth': 0, 'own': [['x', oi]]},
+        {'name': 'PS', 'ns': 'urn:d2b', 'base': 'PB', 'depth': 1, 'own': [['y', os_]]},
+        {'name': 'PT', 'ns': 'urn:d2c', 'base': 'PS', 'depth': 2, 'own': [['z', oi]]}],
+        'methods': [
+            {'name': 'm0', 'args': [['a0', rb]], 'rets': [rb]},
+            {'name': 'm1', 'args': [['a0', {'k': 'arr', 'elem': {'k': 'ref', 'cls': 'PB', 'o': o}, 'o': o}]],
+             'rets': [{'k': 'arr', 'elem': {'k': 'ref', 'cls': 'PB', 'o': o}, 'o': o}]}]}
+    return [u1, u2]
+
+
+def nil_docs(b, root_ty, root, cap=24):
+    """xsi:nil in all four xs:boolean spellings on declared members, nillable or not: `1` / `true` on the emptied
+    element, `0` / `false` with the content kept"""
+    out = []
+    tn = typed_nodes(b, root_ty, root)
+    for idx, (ty, n) in enumerate(tn):
+        if idx == 0 or any(k == XSI_NIL for k, _ in n['a']):
+            continue
+        for sp in ('1', 'true', '0', 'false'):
+            doc = copy.deepcopy(root)
+            tgt = typed_nodes(b, root_ty, doc)[idx][1]
+            tgt['a'] = [[XSI_NIL, cps(sp)]]
+            if sp in ('1', 'true'):
+                tgt['x'], tgt['c'] = None, []
+            out.append((doc, 'nil-spelling:%s:%s:%s' % (sp, 'nillable' if ty['o']['nillable'] else 'non-nillable', ty['k'])))
+            if len(out) >= cap:
+                return out
+    return out
+
+
 def cross_ns_universe(rng, idx):
     """inheritance across namespaces, arrays of customised primitives, enums — for the schema-level checks
     (the encoder is the real code's; only `gen` / `valid` of the model are involved)"""
@@ -1029,10 +1090,16 @@ def run(ctx):
     per_method = 4 if ctx.thorough else 2
     n_mut = 16 if ctx.thorough else 10
     configs = [(p, 'lxml', poly) for p in xb.PROTOS for poly in (False, True)] + [('xml', 'soft', False)]
-    for ui in range(n_univ + n_cross):
-        cross = ui >= n_univ
-        u = cross_ns_universe(rng, ui) if cross else xb.gen_universe(rng, ui)
-        add_values(rng, u)
+    directed = directed_universes()
+    for ui in range(n_univ + n_cross + len(directed)):
+        cross = n_univ <= ui < n_univ + n_cross
+        is_directed = ui >= n_univ + n_cross
+        if is_directed:
+            u = copy.deepcopy(directed[ui - n_univ - n_cross])
+            ctx.hit('universe:directed')
+        else:
+            u = cross_ns_universe(rng, ui) if cross else xb.gen_universe(rng, ui)
+            add_values(rng, u)
         with warnings.catch_warnings():
             warnings.simplefilter('ignore')
             b = build_classes(u)
@@ -1044,7 +1111,8 @@ def run(ctx):
             ctx.hit('values-on:' + p['t'])
         ok, vs = compile_real(app0)
         ctx.case({'universe': u['idx'], 'classes': [(c['name'], c['ns'], c['base']) for c in u['classes']]}, len(u['classes']) > 1)
-        ctx.hit('universe:%s' % ('cross-ns' if cross else 'plain'))
+        if not is_directed:
+            ctx.hit('universe:%s' % ('cross-ns' if cross else 'plain'))
         ctx.hit('namespaces:%d' % len(set(c['ns'] for c in b.iface['classes'])))
         try:
             canon = real_schema_canon(app0)
@@ -1066,7 +1134,7 @@ def run(ctx):
         for mname in sorted(b.methods):
             key, in_ty, out_ty = b.methods[mname]
             valid_docs = []
-            for ci in range(per_method):
+            for ci in range(per_method * (3 if is_directed else 1)):
                 call = xb.gen_call(rng, b, mname)
                 if call is None:
                     ctx.hit('skip:unsatisfiable-facets')
@@ -1079,8 +1147,9 @@ def run(ctx):
                     rets = [lengthen(rng, t, v) for (_, t), v in zip(out_ty['fields'], rets)]
                     ctx.hit('emit:long-list')
                 for poly in (False, True):
-                    a2 = [polymorphise(rng, b, t, v) for (_, t), v in zip(in_ty['fields'], args)] if poly else args
-                    r2 = [polymorphise(rng, b, t, v) for (_, t), v in zip(out_ty['fields'], rets)] if poly else rets
+                    pp, bp = (1.0, 0.7) if is_directed else (0.5, 0.4)
+                    a2 = [polymorphise(rng, b, t, v, pp, bp) for (_, t), v in zip(in_ty['fields'], args)] if poly else args
+                    r2 = [polymorphise(rng, b, t, v, pp, bp) for (_, t), v in zip(out_ty['fields'], rets)] if poly else rets
                     if poly:
                         a2 = [enforce_values(rng, t, v, vt, b.fields_of) for (_, t), v in zip(in_ty['fields'], a2)]
                         r2 = [enforce_values(rng, t, v, vt, b.fields_of) for (_, t), v in zip(out_ty['fields'], r2)]
@@ -1107,7 +1176,7 @@ def run(ctx):
                         req_body = body_el(proto, data, app.in_protocol)
                         if req_body is not None and unresolved_xsi_types(req_body):
                             ctx.hit('emit:xsi-type-prefix-undeclared')
-                            ctx.finding('emitted-invalid:xsi-type-prefix-undeclared',
+                            ctx.finding('emitted-invalid:xsi-type-prefix-not-in-scope',
                                         'a polymorphic %s document carries xsi:type="%s" but no declaration of that prefix: the '
                                         'QName does not resolve and the document is invalid against spyne\'s own schema (%s)' % (
                                             proto, unresolved_xsi_types(req_body)[0][0].get(XSI_TYPE), last_error(vschema, req_body)),
@@ -1132,7 +1201,7 @@ def run(ctx):
                         resp_body = body_el(proto, r.out)
                         if resp_body is not None and unresolved_xsi_types(resp_body):
                             ctx.hit('emit:xsi-type-prefix-undeclared')
-                            ctx.finding('emitted-invalid:xsi-type-prefix-undeclared',
+                            ctx.finding('emitted-invalid:xsi-type-prefix-not-in-scope',
                                         'a polymorphic %s document carries xsi:type="%s" but no declaration of that prefix: the '
                                         'QName does not resolve and the document is invalid against spyne\'s own schema (%s)' % (
                                             proto, unresolved_xsi_types(resp_body)[0][0].get(XSI_TYPE), last_error(vschema, resp_body)),
@@ -1170,6 +1239,7 @@ def run(ctx):
                 muts.append((in_ty, m[0], m[1]))
             if base_docs:
                 muts += [(in_ty, d, tag) for d, tag in boundary_docs(b, *base_docs[0])]
+                muts += [(in_ty, d, tag) for d, tag in nil_docs(b, *base_docs[0], cap=(40 if is_directed else 12))]
             soft_ok_base = {}
             for _ in range((n_mut // 2) if (base_docs and vt) else 0):
                 bi = rng.randrange(len(base_docs))
@@ -1272,7 +1342,7 @@ def run(ctx):
                 else:
                     ctx.hit('doc-outside-lexical-domain')
                 # T3: on the common form the two validators of the real code reach the same verdict
-                if mo['common'] and im['indom'] and not im['values'] and wf_of.get(case['universe']['idx']):
+                if mo['commonGood'] and im['indom'] and not im['values'] and wf_of.get(case['universe']['idx']):
                     ctx.hit('common-form:%s' % ('accept' if im['lxml'] else 'reject'))
                     ctx.cov['common_form_docs'] = ctx.cov.get('common_form_docs', 0) + 1
                     if im['lxml'] != (im['soft'] == 'ok'):
